@@ -83,6 +83,10 @@ def reference_oracle(ctx, ss):
                     for u in active:
                         if B[u]: M[u] = v
                     op = f'f[b] = {v}'
+                elif k < 0.72 and len(active) < n:
+                    gone = [u for u in range(n) if u not in active]; us = rng.sample(gone, min(len(gone), rng.randint(1, 2)))
+                    ppl.alive[ss.uids(us)] = True      # a uid-indexed write into the cells of removed agents: the active set is not touched, now or at later removals
+                    op = f'alive[uids({us})] = True (removed agents)'
                 else:
                     op = 'read'
             except Exception as E:
@@ -92,6 +96,7 @@ def reference_oracle(ctx, ss):
             checks = [
                 ('values', list(map(float, f.values)), [M[u] for u in active]),
                 ('len', len(f), len(active)),
+                ('people.auids', list(map(int, ppl.auids)), list(active)),
                 ('(f > c).uids', list(map(int, (f > c).uids)), [u for u in active if M[u] > c]),
                 ('(f <= c).uids', list(map(int, (f <= c).uids)), [u for u in active if M[u] <= c]),
                 ('b.true()', list(map(int, b.true())), [u for u in active if B[u]]),
